@@ -10,6 +10,9 @@ from .sym import PathAbort
 from .formula import TRUE
 
 
+MAX_CANDIDATES = 4      # counterexamples kept per claim / obligation kind (from different paths)
+
+
 def _short_tb(e):
     tb = traceback.extract_tb(e.__traceback__)
     fr = [f'{f.filename.split("/")[-1]}:{f.lineno}:{f.name}' for f in tb[-6:]]
@@ -58,6 +61,7 @@ def explore(mod_name, func_name, params, opts):
         'stub_consistency': {}, 'notes': [], 'rng_audit': [],
     }
     seen_fail = set()
+    seen_cnt = {}
     if opts.get('concrete_only'):
         # an instance with no symbolic content (code the engine cannot encode):
         # the real code is run on the harness's fixed inputs; reported as such
@@ -148,7 +152,8 @@ def explore(mod_name, func_name, params, opts):
             d[c['verdict']] = d.get(c['verdict'], 0) + 1
             if c['verdict'] == 'sat':
                 path_ok = False
-                if c['name'] not in seen_fail:
+                seen_cnt[c['name']] = seen_cnt.get(c['name'], 0) + 1
+                if seen_cnt[c['name']] <= MAX_CANDIDATES:
                     seen_fail.add(c['name'])
                     res['failures'].append({'kind': 'claim', 'name': c['name'],
                                             'values': c.get('model'), 'detail': c.get('detail'),
@@ -162,7 +167,8 @@ def explore(mod_name, func_name, params, opts):
             d[o['verdict']] = d.get(o['verdict'], 0) + 1
             if o['verdict'] == 'sat':
                 key = ('obl', o['kind'])
-                if key not in seen_fail:
+                seen_cnt[key] = seen_cnt.get(key, 0) + 1
+                if seen_cnt[key] <= MAX_CANDIDATES:
                     seen_fail.add(key)
                     res['failures'].append({'kind': 'obligation', 'name': o['kind'],
                                             'values': o.get('model'), 'detail': o.get('what'),
